@@ -255,6 +255,9 @@ ShelvesConserved(s) ==
      /\ Cardinality(occupied) = NumShelves                                \* as many shelves on the floor as slots
      /\ { Cell(ShelfChan(s), rc) : rc \in occupied } = 1..NumShelves      \* and the same set of ids
 CarrierHasShelf(s) == \A k \in Agents : ACar(s, k) = 1 => ShelfOn(s, APos(s, k))
+\* a shelf that nobody carries rests on a shelf slot (shelves are put down only off the highways)
+CarriedBy(s, j) == { k \in Agents : ACar(s, k) = 1 /\ APos(s, k) = SPos(s, j) }
+RestingOnSlots(s) == \A j \in 0..(NumSh(s) - 1) : CarriedBy(s, j) = {} => IsSlot(SPos(s, j))
 QueueOK(s) ==
   /\ Len(s.request_queue) = QSize
   /\ \A n \in 1..QSize : s.request_queue[n] \in ShelfIds
@@ -262,12 +265,11 @@ QueueOK(s) ==
 RequestedAgrees(s) == \A j \in 0..(NumSh(s) - 1) : (SReq(s, j) = 1) <=> (j \in Range(s.request_queue))
 PhysInv(s) ==
   /\ GridShape(s) /\ TablesShape(s) /\ EntitiesInBounds(s) /\ AgentsDistinct(s) /\ ShelvesDistinct(s)
-  /\ AgentChanAgrees(s) /\ ShelfChanAgrees(s) /\ ShelvesConserved(s) /\ CarrierHasShelf(s)
+  /\ AgentChanAgrees(s) /\ ShelfChanAgrees(s) /\ ShelvesConserved(s) /\ CarrierHasShelf(s) /\ RestingOnSlots(s)
   /\ QueueOK(s) /\ RequestedAgrees(s)
 
 \* conservation over one transition s -> t: a shelf that was carried is where its carrier is,
 \* every other shelf is where it was
-CarriedBy(s, j) == { k \in Agents : ACar(s, k) = 1 /\ APos(s, k) = SPos(s, j) }
 CarriedFollows(s, t) ==
   \A j \in 0..(NumSh(s) - 1) : \A k \in CarriedBy(s, j) : SPos(t, j) = APos(t, k)
 UncarriedStay(s, t) ==
